@@ -151,6 +151,47 @@ def run(ctx):
                             if cc.name in relay_calls or cc.target.endswith("spawn::spawn"):
                                 bad.append(cc.name)
                     ctx.ob("D3", fb.root, f"{c.method}-failure-drops-inbound", loc(t["sp"]), not bad, "failure edge reaches the function end without relaying" if not bad else f"failure edge still reaches {sorted(set(bad))}")
+    # ---------------- D9 what was received with the request is delivered unless the dial failed --------------------------------------
+    # the first item of a stream flow carries payload that has already been received from the client. From the arm that binds it, every
+    # way out of the handler either runs the relay (which is handed that payload as its first item) or lies behind the failure edge of the
+    # resolve / connect. A third way out - "the client closed while we were connecting", a timeout that is not a connect failure - drops
+    # bytes that were received from the side that closed, which is exactly what must be delivered before the other side sees the end.
+    n_d9 = 0
+    for (fb, binds) in handlers:
+        relay_blocks = {blk for (blk, c, t) in fb.calls() if c.name in ("StreamExt::forward", "SinkExt::send", "SinkExt::feed", "SinkExt::send_all")}
+        fail_targets = set()
+        for (blk, c, t) in fb.calls():
+            dty = fb.local_ty(t["dest"][0])
+            resolves = "Result<std::net::SocketAddr" in dty and any(ADDR in fb.local_ty(op_place(a)[0]) for a in t["args"] if op_place(a))
+            cb_ = prog.body(c.target)
+            dial_wrapper = cb_ is not None and cb_.root != fb.root and "Result<" in dty + " " + (cb_.local_ty(0) or "") and \
+                any(cc.name == "TcpStream::connect" for (_, cc, _) in prog.flat(cb_.defp).calls())
+            if c.name == "TcpStream::connect" or resolves or dial_wrapper:
+                for g in gates_of_value(fb, t["dest"][0]):
+                    if g.kind in ("result", "try"):
+                        fail_targets.add(g.target_for(1))
+        starts = set()
+        for l_, (variant, fi) in binds.items():
+            if "Tcp" in str(variant) and "BytesMut" in fb.local_ty(l_):        # the payload of the stream-connect variant
+                for d in fb.defs().get(l_, []):
+                    starts.add(d[1])
+        rets = set(fb.return_blocks())
+        # the relay = the workspace call that is handed (a value built from) that payload
+        pay = [l_ for l_, (variant, fi) in binds.items() if "Tcp" in str(variant) and "BytesMut" in fb.local_ty(l_)]
+        fwd_ = fb.slice_fwd(pay)[0] if pay else set()
+        relay_blocks |= {blk for (blk, c, t) in fb.calls() if c.target.startswith("octo_squirrel") and any(op_place(a) and op_place(a)[0] in fwd_ and not fb.local_ty(op_place(a)[0]).startswith(("&", "std::pin::Pin")) and
+                                any(w in fb.local_ty(op_place(a)[0]) for w in ("BytesMut", "InboundIn")) for a in t["args"])}       # the payload / the item built from it, handed over by value
+        for sblk in sorted(starts):
+            n_d9 += 1
+            reach = fb.reach_from(sblk, avoid=frozenset(relay_blocks | fail_targets))
+            bad = sorted(x for x in reach if x in rets)
+            where = loc(fb.term(sblk)["sp"]) if fb.term(sblk) and fb.term(sblk).get("sp") else loc(fb.sp)
+            ctx.ob("D9", fb.root, "received-payload-is-relayed-unless-the-dial-failed", where, not bad,
+                   "from the arm that binds the request's payload every way out runs the relay or lies behind a failed resolve / connect" if not bad else
+                   "the handler can return from the arm that holds the request's already-received payload without running the relay and without the resolve / connect having "
+                   "failed (e.g. it gives up when the client closes while the target is still being dialled): bytes received from the side that closed are dropped instead of "
+                   "being delivered before the other side sees the end")
+    ctx.floor("D9", "first-item arms that bind already-received stream payload", 1, n_d9)
     # ---------------- D5 a Sink that defers what start_send accepted must emit it when it is closed -------------------------------
     # forward() closes a sink without flushing it when its source ends: whatever start_send only buffered is lost with a clean close
     sinks = {}
